@@ -144,10 +144,10 @@ static void potential_cases(Harness &H) {
   const std::vector<double> SH = {1.0, -2.5};
   for (size_t n : NS)
     for (int kind = 0; kind < 3; kind++)
-      for (int route = 0; route < 3; route++) {  // 0: interpolateFunction, 1: hand-built full support, 2: hand-built sub-window
+      for (int route = 0; route < 4; route++) {  // 0: interpolateFunction, 1: hand-built full support, 2/3: hand-built sub-windows
         if (!H.take()) continue;
         static const char *kn[] = {"zero", "x^2/2", "cosh-1"};
-        static const char *rn[] = {"interpolated", "handbuilt", "handbuilt-subwindow"};
+        static const char *rn[] = {"interpolated", "handbuilt", "handbuilt-subwindow", "handbuilt-subwindow-right"};
         H.begin("potential;n=" + std::to_string(n) + ";v=" + kn[kind] + ";" + rn[route]);
         auto gp = grid_points(n % 2 ? "uni" : "nonuni", n, -5.0, 5.0);
         auto vfun = [kind](double x) { return kind == 0 ? 0.0 : kind == 1 ? x * x / 2 : std::cosh(x) - 1; };
@@ -155,7 +155,11 @@ static void potential_cases(Harness &H) {
           if (route == 0) return interpolateFunction(gp, [&](data_t x) { return vfun(x) + shift; });
           GridD g(gp);
           if (route == 1) return handbuilt_potential(g, 0, n, kind, shift);
-          return handbuilt_potential(g, 1, n - 1, kind, shift);
+          // a potential supported on a sub-window; "adding the constant c to the potential" adds it on the whole domain:
+          // v + c is the sum of the sub-window spline and a whole-grid constant spline
+          PSpline sub = route == 2 ? handbuilt_potential(g, 1, n - 1, kind, 0.0) : handbuilt_potential(g, n / 3, n, kind, 0.0);
+          if (shift == 0.0) return sub;
+          return sub + PSpline(SupD(g, 0, n), std::vector<std::array<data_t, 4>>(n - 1, std::array<data_t, 4>{shift, 0, 0, 0}));
         };
         std::vector<Eigenspace> base;
         Outcome oc = attempt([&] { base = solveSEWithSplinePotential(make(0.0)); });
@@ -174,7 +178,6 @@ static void potential_cases(Harness &H) {
         auto by_energy = [](const Eigenspace &x, const Eigenspace &y) { return x.energy < y.energy; };
         std::sort(base.begin(), base.end(), by_energy);
         for (double sh : SH) {
-          if (route == 2) break;  // a shifted potential on a sub-window is not a constant shift of the operator
           std::vector<Eigenspace> sft;
           Outcome o2 = attempt([&] { sft = solveSEWithSplinePotential(make(sh)); });
           if (o2.threw()) { H.fail("potential:threw", o2.str()); break; }
